@@ -31,6 +31,7 @@ fn main() {
       0
     }
     "server" => readback::cmd_server(&args[2..]),
+    "skeleton" => readback::cmd_skeleton(&args[2..]),
     _ => {
       eprintln!("usage: vtool translate <repo> <outdir> | parse-response <files..> | dump <files..>");
       2
